@@ -145,4 +145,10 @@ example : Live exDesc (init exDesc (List.replicate 16 0) [] [[0], [0, 0]]) ∧ T
 /-- non-vacuity: the initial state of a parser is quiescent -/
 example (D : Desc) : Quiescent (init D [] [] []) := by simp [Quiescent, init, Reading]
 
+/-- the counters this property's theorems keep as unbounded natural numbers (`unsolicited_cmd_buffer_items_count`) are declared
+`size_t` in `cat.h` — 64 bits on the target, so they cannot wrap on any buffer, table or line that exists; the widths
+are read from the struct declarations on every run (translator item T21) -/
+theorem C15_counters_unbounded :
+    Gen.width_uns_unsolicited_cmd_buffer_items_count = 64 := by decide
+
 end Cat
